@@ -47,113 +47,188 @@ def run(ck: Check) -> None:
 
 
 def a(ck: Check) -> None:
+    """network_to_petrinet, read symbolically: what is passed to _create_transitions and stored in the place table."""
+    from .symstr import SymEval
     fm = ck.prog.fm(PN, "network_to_petrinet")
     f = fm.f
-    bd = {}
-    for n in own_walk(f.node):
-        if isinstance(n, ast.Assign) and isinstance(n.targets[0], ast.Name) and isinstance(n.value, ast.Call) and callee_name(n.value) == "l_and":
-            bd[n.targets[0].id] = text(n.value)
+    net = f.params()[0]
+    se = SymEval(fm)
+    VAR = f"elem({net}.variables())"
     calls = [n for n in own_walk(f.node) if isinstance(n, ast.Call) and callee_name(n) == "_create_transitions"]
+    callee = ck.prog.fm(PN, "_create_transitions")
+    cps = callee.f.params()
     probs = []
     seen = set()
+    places_tok = None
     for c in calls:
-        up = next((k.value for k in c.keywords if k.arg == "go_up"), c.args[5] if len(c.args) > 5 else None)
-        bdd = c.args[4] if len(c.args) > 4 else None
-        src = bd.get(text(bdd), "")
-        if is_true(up):
+        cn = fm.cfgn(c)
+        arg = {p_: se.val(call_arg(c, i, p_), cn) if call_arg(c, i, p_) is not None else None for i, p_ in enumerate(cps)}
+        upv = call_arg(c, cps.index("go_up"), "go_up") if "go_up" in cps else None
+        bdd = arg.get(cps[4])
+        places_tok = arg.get(cps[2])
+        # F = BDD of the update function of VAR, X = BDD of VAR, in one symbolic context
+        def attr_call(x, name):
+            return isinstance(x, ast.Call) and isinstance(x.func, ast.Attribute) and x.func.attr == name
+
+        def strip_not(x, at):
+            x, at = fm.deref_at(x, at)
+            if attr_call(x, "l_not") and not x.args:
+                y, at2 = fm.deref_at(x.func.value, at)
+                return y, at2, True
+            return x, at, False
+        e0, at0 = fm.deref_at(call_arg(c, 4, cps[4]), cn)
+        if not (attr_call(e0, "l_and") and len(e0.args) == 1):
+            probs.append(f"transitions are built from `{bdd}`, which is not a conjunction of the update function and the variable")
+            continue
+        L, atL, notL = strip_not(e0.func.value, at0)
+        R, atR, notR = strip_not(e0.args[0], at0)
+        if attr_call(L, "mk_network_variable"):
+            L, atL, notL, R, atR, notR = R, atR, notR, L, atL, notL
+        notf, notx = notL, notR
+        okF = attr_call(L, "mk_update_function") and len(L.args) == 1
+        uf = fm.deref_at(L.args[0], atL)[0] if okF else None
+        okF = okF and attr_call(uf, "get_update_function") and len(uf.args) == 1
+        okX = attr_call(R, "mk_network_variable") and len(R.args) == 1
+        if not (okF and okX):
+            probs.append(f"transitions are built from `{bdd}`, which is not a conjunction of the update function and the variable")
+            continue
+        ufat = fm.deref_at(L.args[0], atL)[1]
+        same = se.val(L.func.value, atL) == se.val(R.func.value, atR) and se.val(uf.func.value, ufat) == net \
+            and se.val(uf.args[0], ufat) == VAR and se.val(R.args[0], atR) == VAR
+        if not same:
+            probs.append("update function, variable BDD and variable name are not taken from the same variable of the same network")
+        if is_true(upv):
             seen.add(True)
-            if src != "function_bdd.l_and(var_bdd.l_not())":
-                probs.append(f"up-transitions are built from `{src or text(bdd)}`, expected f AND NOT x")
-        elif is_false(up):
+            if notf or not notx:
+                probs.append(f"up-transitions are built from `{bdd}`, expected f AND NOT x")
+        elif is_false(upv):
             seen.add(False)
-            if src != "function_bdd.l_not().l_and(var_bdd)":
-                probs.append(f"down-transitions are built from `{src or text(bdd)}`, expected NOT f AND x")
+            if not notf or notx:
+                probs.append(f"down-transitions are built from `{bdd}`, expected NOT f AND x")
         else:
             probs.append("go_up is not a constant")
-        if text(c.args[3]) != "var_name" or text(c.args[2]) != "places":
-            probs.append("transitions are created for another variable / place table")
+        if arg.get(cps[3]) != f"{net}.get_variable_name({VAR})":
+            probs.append("transitions are created for another variable")
+        pc = se.cond(cn, local=True)
+        if not logic.equivalent(pc, logic.Not(logic.B(f"none:{net}.get_update_function({VAR})"))):
+            probs.append(f"transitions are created under `{logic.show(pc)}`; expected: for every variable that has an update function")
     if seen != {True, False}:
         probs.append("both directions are not generated")
-    ck.ob("A", fm, calls[0] if calls else f.node, not probs, "; ".join(probs) if probs else "up = f & !x, down = !f & x", key="direction pairing")
+    ck.ob("A", fm, calls[0] if calls else f.node, not probs, "; ".join(sorted(set(probs))) if probs else "up = f & !x, down = !f & x",
+          key="direction pairing")
+    # the place table
     probs = []
-    pl = [n for n in own_walk(f.node) if isinstance(n, ast.Assign) and isinstance(n.targets[0], ast.Subscript) and text(n.targets[0].value) == "places"]
-    if len(pl) != 1 or text(pl[0].value) != "(n_name, p_name)":
-        probs.append("places[name] is not (zero place, one place)")
-    nn = {text(n.targets[0]): n.value for n in own_walk(f.node) if isinstance(n, ast.Assign) and text(n.targets[0]) in ("p_name", "n_name")}
-    for nm, pol in (("p_name", True), ("n_name", False)):
-        v = nn.get(nm)
-        kw = next((k.value for k in v.keywords if k.arg == "positive"), v.args[1] if v is not None and len(v.args) > 1 else None) if isinstance(v, ast.Call) else None
-        if not (isinstance(kw, ast.Constant) and kw.value is pol):
-            probs.append(f"{nm} is not variable_to_place(name, positive={pol})")
-    adds = [n for n in own_walk(f.node) if isinstance(n, ast.Call) and callee_name(n) == "add_node" and 'kind' in text(n)]
-    if len(adds) != 2 or not all("'place'" in text(x) for x in adds):
+    E = f"elem({net}.variable_names())"
+    pl = [n for n in own_walk(f.node) if isinstance(n, ast.Assign) and isinstance(n.targets[0], ast.Subscript)
+          and places_tok is not None and se.val(n.targets[0].value, fm.cfgn(n)) == places_tok]
+    if len(pl) != 1:
+        probs.append("the place table is not filled at one place")
+    else:
+        cn = fm.cfgn(pl[0])
+        if se.val(pl[0].targets[0].slice, cn) != E or se.val(pl[0].value, cn) != f"(P({E},False),P({E},True))" or logic.atoms(se.cond(cn, local=True)):
+            probs.append(f"places[{se.val(pl[0].targets[0].slice, cn)}] = {se.val(pl[0].value, cn)}; expected (zero place, one place) of every variable")
+    adds = [n for n in own_walk(f.node) if isinstance(n, ast.Call) and callee_name(n) == "add_node"
+            and any(k.arg == "kind" and isinstance(k.value, ast.Constant) and k.value.value == "place" for k in n.keywords)]
+    declared = {se.val(x.args[0], fm.cfgn(x)) for x in adds if x.args and not logic.atoms(se.cond(fm.cfgn(x), local=True))}
+    if declared != {f"P({E},True)", f"P({E},False)"}:
         probs.append("both places of every variable are not declared as kind='place'")
     ck.ob("A", fm, pl[0] if pl else f.node, not probs, "; ".join(probs) if probs else "one (zero, one) place pair per variable", key="places")
-    # the update function and the variable BDD come from the same variable
     probs = []
-    uf = [n for n in own_walk(f.node) if isinstance(n, ast.Assign) and text(n.targets[0]) == "update_function"]
-    vb = [n for n in own_walk(f.node) if isinstance(n, ast.Assign) and text(n.targets[0]) == "var_bdd"]
-    fb = [n for n in own_walk(f.node) if isinstance(n, ast.Assign) and text(n.targets[0]) == "function_bdd"]
-    vn = [n for n in own_walk(f.node) if isinstance(n, ast.Assign) and text(n.targets[0]) == "var_name"]
-    if not (uf and text(uf[0].value) == "network.get_update_function(var)" and vb and text(vb[0].value) == "symbolic_context.mk_network_variable(var)"
-            and fb and text(fb[0].value) == "symbolic_context.mk_update_function(update_function)" and vn and text(vn[0].value) == "network.get_variable_name(var)"):
-        probs.append("update function, variable BDD and variable name are not taken from the same variable of the same network")
     san = [n for n in own_walk(f.node) if isinstance(n, ast.Call) and callee_name(n) == "sanitize_network_names"]
     if not san or not any(k.arg == "check_only" and is_true(k.value) for k in san[0].keywords):
         probs.append("unsanitised variable names are not refused")
-    ck.ob("A", fm, uf[0] if uf else f.node, not probs, "; ".join(probs) if probs else "per-variable data consistent; names checked", key="per variable")
+    ck.ob("A", fm, san[0] if san else f.node, not probs, "; ".join(probs) if probs else "per-variable data consistent; names checked",
+          key="per variable")
+
+
+def _spec_model(prog, fm: FuncModel, env: dict) -> FuncModel:
+    from .. import peval
+    from ..repo import Func
+    node = peval.specialise(fm.f.node, {k: v for k, v in env.items() if k in fm.f.params()})
+    return FuncModel(prog, Func(fm.f.module, fm.f.qualname, node, fm.f.cls, fm.f.parent))
 
 
 def b(ck: Check) -> None:
+    """_create_transitions, specialised to go_up = True / False and read symbolically: which arcs are created between
+    which places and the transition, and under which condition."""
+    from .symstr import SymEval
     fm = ck.prog.fm(PN, "_create_transitions")
     f = fm.f
-    edges = [n for n in own_walk(f.node) if isinstance(n, ast.Call) and callee_name(n) == "add_edge"]
-    table = {True: [], False: [], None: []}
-    for e in edges:
-        pc = fm.pc(fm.cfgn(e))
-        up = logic.B("T:go_up")
-        key = None
-        if up[1] in logic.atoms(pc):
-            if logic.implies(pc, up):
-                key = True
-            elif logic.implies(pc, logic.Not(up)):
-                key = False
-        table[key].append((text(e.args[0]), text(e.args[1])))
-    probs = []
-    want_up = {("places[var_name][0]", "t_name"), ("t_name", "places[var_name][1]")}
-    want_dn = {("places[var_name][1]", "t_name"), ("t_name", "places[var_name][0]")}
-    if set(table[True]) != want_up:
-        probs.append(f"an up-transition has arcs {sorted(table[True])}; expected: take the token from the zero place, put it into the one place")
-    if set(table[False]) != want_dn:
-        probs.append(f"a down-transition has arcs {sorted(table[False])}; expected: take the token from the one place, put it into the zero place")
-    ck.ob("B", fm, f.node, not probs, "; ".join(probs) if probs else "up: zero -> t -> one; down: one -> t -> zero", key="token move")
-    probs = []
-    read = set(table[None])
-    if read != {("places[variable_str][value]", "t_name"), ("t_name", "places[variable_str][value]")}:
-        probs.append(f"condition literals create arcs {sorted(read)}; expected a read arc (both directions) on the place indexed by the literal's value")
-    lp = [n for n in own_walk(f.node) if isinstance(n, ast.For) and "implicant.items()" in text(n.iter)]
-    if len(lp) != 1:
-        probs.append("literals of the implicant are not all visited")
-    else:
-        conts = [n for n in ast.walk(lp[0]) if isinstance(n, ast.Continue)]
-        if len(conts) != 1 or text(fm.f.parents[conts[0]].test) not in ("variable_str == var_name", "var_name == variable_str"):
-            probs.append("exactly the changed variable's own literal must be skipped")
-        vs = [n for n in ast.walk(lp[0]) if isinstance(n, ast.Assign) and text(n.targets[0]) == "variable_str"]
-        if not vs or "get_variable_name(variable)" not in text(vs[0].value).replace("\n", ""):
-            probs.append("literal variable is not translated to its name")
-    ck.ob("B", fm, lp[0] if lp else f.node, not probs, "; ".join(probs) if probs else "other literals: read arcs on places[var][value]", key="read arcs")
-    probs = []
-    ol = [n for n in own_walk(f.node) if isinstance(n, ast.For) and "optimized_recursive_dnf_generator(implicant_bdd)" in text(n.iter)]
-    if len(ol) != 1 or any(isinstance(x, (ast.Break,)) for x in ast.walk(ol[0])):
-        probs.append("not every implicant of the BDD yields a transition")
-    else:
-        an = [n for n in ast.walk(ol[0]) if isinstance(n, ast.Call) and callee_name(n) == "add_node"]
-        if not an or "'transition'" not in text(an[0]) or "change=var_name" not in text(an[0]):
-            probs.append("transition nodes are not tagged kind='transition', change=<variable>")
-        tn = [n for n in ast.walk(ol[0]) if isinstance(n, ast.Assign) and text(n.targets[0]) == "t_name"]
-        if not tn or "t_id" not in text(tn[0].value) or "var_name" not in text(tn[0].value) or "dir_str" not in text(tn[0].value):
-            probs.append("transition names are not unique per (variable, direction, implicant)")
-    ck.ob("B", fm, ol[0] if ol else f.node, not probs, "; ".join(probs) if probs else "one uniquely named transition per implicant", key="implicants")
+    ps = f.params()
+    if "go_up" not in ps or len(ps) < 5:
+        raise AnalysisError("anchor vanished: parameters of _create_transitions")
+    places_p, var_p, bdd_p = ps[2], ps[3], ps[4]
+    move_probs, read_probs, impl_probs = [], [], []
+    tnames = {}
+    for up in (True, False):
+        g = _spec_model(ck.prog, fm, {"go_up": up})
+        se = SymEval(g)
+        label = "an up-transition" if up else "a down-transition"
+        nodes_t = [n for n in own_walk(g.f.node) if isinstance(n, ast.Call) and callee_name(n) == "add_node"
+                   and any(k.arg == "kind" and isinstance(k.value, ast.Constant) and k.value.value == "transition" for k in n.keywords)]
+        if len(nodes_t) != 1:
+            impl_probs.append("transition nodes are not created at one place (kind='transition')")
+            continue
+        tn = nodes_t[0]
+        T = se.val(tn.args[0], g.cfgn(tn)) if tn.args else "?"
+        tnames[up] = T
+        chg = next((k.value for k in tn.keywords if k.arg == "change"), None)
+        if chg is None or se.val(chg, g.cfgn(tn)) != var_p:
+            impl_probs.append("transition nodes are not tagged change=<variable>")
+        loops = [l for l in g.cfg.enclosing_loops(g.cfgn(tn)) if isinstance(l, ast.For)]
+        gen = se.val(loops[-1].iter, g.cfg.loop_header[loops[-1]]) if loops else ""
+        if not loops or f"optimized_recursive_dnf_generator({bdd_p})" not in gen or gen.replace("enumerate(", "").rstrip(")") != \
+                f"optimized_recursive_dnf_generator({bdd_p})".rstrip(")"):
+            impl_probs.append(f"transitions are created for `{gen}`, not for every implicant of the BDD")
+        elif any(isinstance(x, ast.Break) for x in ast.walk(loops[-1])) or g.cond(g.cfgn(tn)) if False else False:
+            pass
+        if loops and any(isinstance(x, ast.Break) and g.cfg.enclosing_loops(g.cfgn(x))[0] is loops[-1] for x in ast.walk(loops[-1])):
+            impl_probs.append("not every implicant of the BDD yields a transition")
+        if se.cond(g.cfgn(tn)) != logic.TRUE and logic.atoms(se.cond(g.cfgn(tn))):
+            impl_probs.append(f"a transition is created only under `{logic.show(se.cond(g.cfgn(tn)))}`")
+        if var_p not in T or "index(" not in T:
+            impl_probs.append("transition names are not unique per (variable, direction, implicant)")
+        IMP = f"elem(optimized_recursive_dnf_generator({bdd_p}))"
+        arcs = []
+        for e in own_walk(g.f.node):
+            if isinstance(e, ast.Call) and callee_name(e) == "add_edge" and len(e.args) >= 2:
+                cn = g.cfgn(e)
+                arcs.append((se.val(e.args[0], cn), se.val(e.args[1], cn), se.cond(cn)))
+        zero, one = f"idx(idx({places_p},{var_p}),0)", f"idx(idx({places_p},{var_p}),1)"
+        src, dst = (zero, one) if up else (one, zero)
+        move = {(a_, b_) for a_, b_, c_ in arcs if not logic.atoms(c_)}
+        if move != {(src, T), (T, dst)}:
+            move_probs.append(f"{label} has the unconditional arcs {sorted(move)}; expected: take the token from the "
+                              f"{'zero' if up else 'one'} place, put it into the {'one' if up else 'zero'} place")
+        reads = [(a_, b_, c_) for a_, b_, c_ in arcs if logic.atoms(c_)]
+        NAME = None
+        for a_, b_, c_ in reads:
+            other = a_ if b_ == T else b_
+            pre = f"idx(idx({places_p},"
+            suf = f"),idx({IMP},elem({IMP})))"
+            if not ((a_ == T) != (b_ == T)) or not (other.startswith(pre) and other.endswith(suf)):
+                read_probs.append(f"{label}: arc ({a_} -> {b_}) is not a read arc on the place indexed by a literal's value")
+                continue
+            NAME = other[len(pre):-len(suf)]
+            if f"get_variable_name(elem({IMP}))" not in NAME:
+                read_probs.append("literal variable is not translated to its name")
+            want = logic.Not(logic.Eq(*sorted([NAME, var_p]))) if False else logic.Not(logic.B("eq:" + "|".join(sorted([NAME, var_p]))))
+            if not logic.equivalent(c_, want):
+                read_probs.append(f"{label}: a condition literal gets its arc under `{logic.show(c_)}`; exactly the changed "
+                                  f"variable's own literal must be skipped")
+        dirs = {(a_ == T) for a_, b_, c_ in reads}
+        if reads and dirs != {True, False}:
+            read_probs.append(f"{label}: condition literals need a read arc in both directions (place -> t and t -> place)")
+        if not reads:
+            read_probs.append(f"{label}: the other literals of the implicant create no arcs")
+    if len(set(tnames.values())) != 2:
+        impl_probs.append("up- and down-transitions are not named differently")
+    ck.ob("B", fm, f.node, not move_probs, "; ".join(sorted(set(move_probs))) if move_probs else "up: zero -> t -> one; down: one -> t -> zero",
+          key="token move")
+    ck.ob("B", fm, f.node, not read_probs, "; ".join(sorted(set(read_probs))) if read_probs else
+          "other literals: read arcs on places[var][value]", key="read arcs")
+    ck.ob("B", fm, f.node, not impl_probs, "; ".join(sorted(set(impl_probs))) if impl_probs else
+          "one uniquely named transition per implicant", key="implicants")
 
 
 def c(ck: Check) -> None:
@@ -199,113 +274,198 @@ def c(ck: Check) -> None:
 
 
 def d(ck: Check) -> None:
+    """restrict_petrinet_to_subspace, read symbolically (loops over literal place tuples unrolled): which nodes are removed
+    from which graph, under which conditions."""
+    from .. import peval
+    from ..repo import Func
+    from .symstr import SymEval
     fm = ck.prog.fm(PN, "restrict_petrinet_to_subspace")
     f = fm.f
+    pn_p, sp_p = f.params()[0], f.params()[1]
+    node = peval.specialise(f.node, {}, unroll=True)
+    g = FuncModel(ck.prog, Func(f.module, f.qualname, node, f.cls, f.parent))
+    se = SymEval(g, pol_tables=True)
+    VAL = f"idx({sp_p},elem({sp_p}))"
+    FIX = f"P(elem({sp_p}),{{0:F,1:T}}@{VAL})"
+    INV = f"P(elem({sp_p}),{{0:T,1:F}}@{VAL})"
+    R = f"copy.deepcopy({pn_p})"
+    both = logic.And(logic.B(f"in:{FIX}|{R}"), logic.B(f"in:{INV}|{R}"))
+    removed = []   # (what, condition, cfg node)
+    for c in own_walk(g.f.node):
+        if isinstance(c, ast.Call) and isinstance(c.func, ast.Attribute) and c.func.attr in ("remove_node", "remove_nodes_from") and c.args:
+            cn = g.cfgn(c)
+            tgt = se.val(c.func.value, cn)
+            what = se.val(c.args[0], cn)
+            if c.func.attr == "remove_nodes_from":
+                what = f"elem({what})"
+            removed.append((tgt, what, se.cond(cn), cn))
     probs = []
-    cp = [n for n in own_walk(f.node) if isinstance(n, ast.Assign) and text(n.targets[0]) == "result"]
-    if not cp or "deepcopy(petri_net)" not in text(cp[0].value):
+    rets = [r for r in own_walk(g.f.node) if isinstance(r, ast.Return)]
+    if not rets or any(se.val(r.value, g.cfgn(r)) != R for r in rets):
+        probs.append("the function does not return a deep copy of the given net")
+    if any(t != R for t, _, _, _ in removed):
         probs.append("the restriction does not work on a deep copy: the caller's net (shared by other nodes) is modified")
-    pls = {text(n.targets[0]): n.value for n in own_walk(f.node) if isinstance(n, ast.Assign) and text(n.targets[0]) in ("fixed_place", "inverse_place")}
-    okp = "fixed_place" in pls and "inverse_place" in pls and text(pls["fixed_place"]) == "variable_to_place(var, bool(value))" \
-        and text(pls["inverse_place"]) == "variable_to_place(var, not bool(value))"
-    if not okp:
-        probs.append("fixed / inverse place are not the places of the fixed value / the opposite value")
-    ck.ob("D", fm, cp[0] if cp else f.node, not probs, "; ".join(probs) if probs else "deep copy; fixed and inverse place of each fixed variable", key="setup")
-    # producer loops
-    probs = []
-    prod = []
-    for lp in own_walk(f.node):
-        if isinstance(lp, ast.For) and isinstance(lp.iter, ast.Call) and callee_name(lp.iter) == "predecessors":
-            place = text(lp.iter.args[0])
-            tr = text(lp.target)
-            tests = [t for t in ast.walk(lp) if isinstance(t, ast.If)]
-            adds = [c for c in ast.walk(lp) if isinstance(c, ast.Call) and callee_name(c) == "add" and "to_delete" in text(c.func.value)]
-            if len(tests) != 1 or not adds:
-                probs.append(f"producers of {place} are not filtered/collected")
+    places = {w: c_ for _, w, c_, _ in removed if w.startswith("P(")}
+    if set(places) != {FIX, INV}:
+        probs.append(f"removed places are {sorted(places)}; expected the place of the fixed value and the place of the opposite value")
+    else:
+        for w, c_ in places.items():
+            if not logic.equivalent(c_, both):
+                probs.append(f"a place of a fixed variable is removed under `{logic.show(c_)[:120]}`; expected: whenever both places "
+                             f"are still in the net")
+    ck.ob("D", fm, f.node, not probs, "; ".join(probs) if probs else "deep copy; fixed and inverse place of each fixed variable removed",
+          key="setup")
+    # the transitions that are removed
+    probs1, probs2 = [], []
+    sets = [(w, c_) for _, w, c_, _ in removed if w.startswith("elem(acc[")]
+    if len(sets) != 1:
+        probs1.append("the transitions to delete are not collected in one set that is removed as a whole")
+    else:
+        w, c_ = sets[0]
+        if not logic.equivalent(c_, both):
+            probs1.append("collected transitions are not always removed")
+        tok = w[len("elem("):-1]
+        contrib = se.contributions(tok)
+        want = {
+            f"elem(preds({FIX}))": logic.And(both, logic.Not(logic.B(f"T:{R}.has_edge({FIX},elem(preds({FIX})))"))),
+            f"elem(preds({INV}))": logic.And(both, logic.Not(logic.B(f"T:{R}.has_edge({INV},elem(preds({INV})))"))),
+            f"elem(succs({INV}))": both,
+        }
+        got = {}
+        for el, cnd, cn in contrib:
+            got.setdefault(el, []).append(cnd)
+        for el, wc in want.items():
+            bucket = probs2 if el.startswith("elem(succs") else probs1
+            if el not in got:
+                if el.startswith("elem(succs"):
+                    bucket.append("all transitions that need the opposite value (consumers/readers of the inverse place) must be "
+                                  "removed")
+                else:
+                    bucket.append(f"transitions that produce a token in `{'the fixed' if FIX in el else 'the inverse'}` place are not "
+                                  f"removed (each place tested against itself)")
                 continue
-            t = tests[0].test
-            want = f"not result.has_edge({place}, {tr})"
-            if text(t) != want:
-                probs.append(f"a producer of `{place}` is kept unless `{text(t)}`; expected `{want}`: only a transition that takes the "
-                             f"token back from the same place is a mere reader")
-            prod.append(place)
-    if sorted(prod) != ["fixed_place", "inverse_place"] and sorted(set(prod)) != ["fixed_place", "inverse_place"]:
-        # a merged loop over both places is fine if it uses the loop's place in the test
-        merged = [lp for lp in own_walk(f.node) if isinstance(lp, ast.For) and isinstance(lp.iter, (ast.Tuple, ast.List))
-                  and {text(x) for x in lp.iter.elts} == {"fixed_place", "inverse_place"}]
-        ok = False
-        for m in merged:
-            pv = text(m.target)
-            inner = [l for l in ast.walk(m) if isinstance(l, ast.For) and isinstance(l.iter, ast.Call) and callee_name(l.iter) == "predecessors"]
-            if inner and text(inner[0].iter.args[0]) == pv:
-                tests = [t for t in ast.walk(inner[0]) if isinstance(t, ast.If)]
-                if tests and text(tests[0].test) == f"not result.has_edge({pv}, {text(inner[0].target)})":
-                    ok = True
-                    probs = [p for p in probs if "producer" not in p and "producers" not in p]
-        if not ok:
-            probs.append("transitions that change the fixed variable are not removed for both of its places (each place tested "
-                         "against itself)")
-    ck.ob("D", fm, f.node, not probs, "; ".join(probs) if probs else
+            total = logic.Or(*got[el])
+            if not logic.equivalent(total, wc):
+                bucket.append(f"transitions from `{el[:40]}...` are deleted under `{logic.show(total)[:160]}`; expected "
+                              f"`{logic.show(wc)[:160]}`: only a transition that takes the token back from the same place is a "
+                              f"mere reader; every consumer of the inverse place must go")
+        for el in got:
+            if el not in want:
+                probs2.append(f"`{el[:80]}` is deleted too: only producers of the variable's places and consumers of the inverse "
+                              f"place may be removed")
+    ck.ob("D", fm, f.node, not probs1, "; ".join(probs1) if probs1 else
           "transitions changing the fixed variable removed (producers that do not also consume, per place)", key="producers")
-    probs = []
-    cons = [lp for lp in own_walk(f.node) if isinstance(lp, ast.For) and isinstance(lp.iter, ast.Call) and callee_name(lp.iter) == "successors"]
-    if len(cons) != 1 or text(cons[0].iter.args[0]) != "inverse_place" or any(isinstance(x, ast.If) for x in ast.walk(cons[0])):
-        probs.append("all transitions that need the opposite value (consumers/readers of the inverse place) must be removed, and only those")
-    rm = [text(n.args[0]) for n in own_walk(f.node) if isinstance(n, ast.Call) and callee_name(n) == "remove_node"]
-    if sorted(rm) != ["fixed_place", "inverse_place", "tr"]:
-        probs.append(f"removed nodes are {sorted(rm)}; expected the collected transitions and both places")
-    skip = [n for n in own_walk(f.node) if isinstance(n, ast.Continue)]
-    for s in skip:
-        t = fm.f.parents[s].test
-        if text(t) != "fixed_place not in result.nodes or inverse_place not in result.nodes":
-            probs.append(f"a fixed variable is skipped when `{text(t)}`")
-    ck.ob("D", fm, cons[0] if cons else f.node, not probs, "; ".join(probs) if probs else
-          "consumers of the inverse place and both places removed", key="consumers and places")
+    ck.ob("D", fm, f.node, not probs2, "; ".join(probs2) if probs2 else
+          "consumers of the inverse place removed, nothing else", key="consumers and places")
 
 
 def e(ck: Check) -> None:
+    """percolate_network, read symbolically along the paths of the per-variable loop: which update function is stored for
+    a variable under which condition."""
+    from .common import enumerate_paths
+    from .c13 import _tbranch
+    from .symstr import SymEval
     fm = ck.prog.fm(SP, "percolate_network")
     f = fm.f
-    probs = []
-    sets = [n for n in own_walk(f.node) if isinstance(n, ast.Call) and callee_name(n) == "set_update_function"]
-    consts = [c for c in sets if "mk_const" in text(c)]
-    others = [c for c in sets if "mk_const" not in text(c)]
-    if len(consts) != 1:
-        probs.append("free inputs fixed by the space are not turned into constants at one place")
-    else:
-        c = consts[0]
-        pc = fm.pc(fm.cfgn(c))
-        want = logic.And(logic.B("none:update"), logic.B("in:name|space"))
-        if not logic.equivalent(pc, want):
-            probs.append(f"a free input becomes a constant under `{logic.show(pc)}`; expected: it has no update function and the "
-                         f"percolated space mentions it (a value of 0 is a value too)")
-        if "space[name]" not in text(c):
-            probs.append("the constant is not the value the space gives to the input")
-        nm = [n for n in own_walk(f.node) if isinstance(n, ast.Assign) and text(n.targets[0]) == "name"]
-        if not nm or text(nm[0].value) != "bn.get_variable_name(var)":
-            probs.append("name is not the name of the processed variable")
-    ck.ob("E", fm, consts[0] if consts else f.node, not probs, "; ".join(probs) if probs else "free input -> constant iff fixed by the space", key="free inputs")
-    probs = []
-    if len(others) != 1:
-        probs.append("update functions are not rewritten at one place")
-    else:
-        c = others[0]
-        pc = fm.pc(fm.cfgn(c))
-        if not logic.equivalent(pc, logic.Not(logic.B("none:update"))):
-            probs.append(f"update functions are restricted under `{logic.show(pc)}`")
-        rs = [n for n in own_walk(f.node) if isinstance(n, ast.Call) and callee_name(n) == "restrict_expression"]
-        if not rs or text(rs[0].args[1]) != "space" or "update.as_expression()" not in text(rs[0].args[0]):
-            probs.append("the update function is not restricted to the percolated space")
-    per = [n for n in own_walk(f.node) if isinstance(n, ast.Assign) and text(n.targets[0]) == "space" and "percolate_space" in text(n.value)]
-    if not per:
-        probs.append("the space is not percolated before the functions are restricted")
+    bn_p, space_p = f.params()[0], f.params()[1]
+    se = SymEval(fm)
+    sets = [n for n in own_walk(f.node) if isinstance(n, ast.Call) and callee_name(n) == "set_update_function" and len(n.args) == 2]
+    if not sets:
+        raise AnalysisError("anchor vanished: percolate_network no longer stores update functions")
+    lps = [l for l in fm.cfg.enclosing_loops(fm.cfgn(sets[0])) if isinstance(l, ast.For)]
+    if not lps:
+        raise AnalysisError("anchor vanished: per-variable loop of percolate_network")
+    lp = lps[-1]
+    VAR = se.val(lp.target, fm.cfg.loop_header[lp]) if not isinstance(lp.target, ast.Name) else None
+    hdr = fm.cfg.loop_header[lp]
+    tb = _tbranch(fm, lp)
+    VAR = f"elem({se.val(lp.iter, hdr)})"
+    probs_in, probs_fn = [], []
+    if se.val(lp.iter, hdr) != f"{bn_p}.variables()":
+        probs_fn.append(f"the loop ranges over `{se.val(lp.iter, hdr)}`, not over all variables of the network")
+    U = logic.B(f"none:{bn_p}.get_update_function({VAR})")
+    NAME = f"{bn_p}.get_variable_name({VAR})"
+    # the percolated space
+    per = [n for n in own_walk(f.node) if isinstance(n, ast.Call) and callee_name(n) == "percolate_space"]
+    SPACE = se.val(per[0], fm.cfgn(per[0])) if per else "?"
+    if not per or not SPACE.endswith(f",{space_p})"):
+        probs_fn.append("the space is not percolated before the functions are restricted")
+    INSP = logic.B(f"in:{NAME}|{SPACE}")
+
+    def walk(path):
+        """conditions and last definitions along a path of CFG node ids"""
+        facts, last = [], {}
+        for i in path:
+            n = fm.cfg.nodes[i]
+            if n.kind == "stmt" and isinstance(n.ast, ast.Assign) and len(n.ast.targets) == 1 and isinstance(n.ast.targets[0], ast.Name):
+                x = n.ast.targets[0].id
+                last[x] = n
+                facts = [(fl, rd) for fl, rd in facts if x not in rd]
+                v = n.ast.value
+                if isinstance(v, ast.Constant) and v.value is None:
+                    facts.append((logic.B(f"none:{x}"), {x}))
+                elif isinstance(v, ast.Call) and (callee_name(v)[:1].isupper() or callee_name(v).startswith("mk_")):
+                    facts.append((logic.Not(logic.B(f"none:{x}")), {x}))   # constructors do not return None
+            if n.kind == "branch" and n.test is not None:
+                tnode = fm.cfg.nodes[next(iter(fm.cfg.g.predecessors(n.id)))]
+                names = {x.id for x in ast.walk(n.test) if isinstance(x, ast.Name)}
+                multi = {x for x in names if len(fm.cfg.reaching_defs(x, tnode)) > 1}
+                key = (lambda e_, t_=tnode, m_=multi: text(e_) if isinstance(e_, ast.Name) and e_.id in m_ else se.val(e_, t_))
+                ff = logic.Translator(key).f(n.test)
+                facts.append((ff if n.pol else logic.Not(ff), names & multi))
+        return logic.And(*[fl for fl, _ in facts]), last
+
+    seen_const = seen_fn = False
+    for c in sets:
+        cn = fm.cfgn(c)
+        tgt = se.val(c.func.value, cn)
+        if se.val(c.args[0], cn) != VAR:
+            probs_fn.append("an update function is stored for another variable than the one being processed")
+        for path in enumerate_paths(fm, tb, cn, stop={hdr.id}):
+            hyp, last = walk(path)
+            if not logic.satisfiable(hyp):
+                continue
+            a = c.args[1]
+            if isinstance(a, ast.Name) and a.id in last:
+                vtok = se.val(last[a.id].ast.value, last[a.id])
+            else:
+                vtok = se.val(a, cn)
+            if logic.implies(hyp, U):
+                seen_const = True
+                if not logic.implies(hyp, INSP):
+                    probs_in.append(f"a free input becomes a constant under `{logic.show(hyp)[:160]}`; expected: it has no update "
+                                    f"function and the percolated space mentions it (a value of 0 is a value too)")
+                if vtok != f"UpdateFunction.mk_const({tgt},idx({SPACE},{NAME}))":
+                    probs_in.append(f"a free input is replaced by `{vtok[:100]}`, not by the constant the space gives to it")
+            elif logic.implies(hyp, logic.Not(U)):
+                seen_fn = True
+                import re
+                ok = re.match(r"^UpdateFunction\(" + re.escape(tgt) + r",restrict_expression\(" +
+                              re.escape(f"{bn_p}.get_update_function({VAR}).as_expression()") + "," + re.escape(SPACE) + r"(,.*)?\)\)$", vtok)
+                if not ok:
+                    probs_fn.append(f"the update function is replaced by `{vtok[:140]}`; expected its restriction to the percolated space")
+            else:
+                probs_fn.append(f"an update function is stored under `{logic.show(hyp)[:120]}`, which does not say whether the "
+                                f"variable is a free input")
+    # paths that store nothing: only free inputs that the space does not mention
+    for path in enumerate_paths(fm, tb, hdr, stop={fm.cfgn(c).id for c in sets}):
+        hyp, _ = walk(path)
+        if logic.satisfiable(hyp) and not logic.implies(hyp, logic.And(U, logic.Not(INSP))):
+            if logic.satisfiable(logic.And(hyp, U)):
+                probs_in.append(f"a free input keeps its free update function under `{logic.show(hyp)[:140]}` although the space may fix "
+                                f"it (membership, not truthiness, decides)")
+            if logic.satisfiable(logic.And(hyp, logic.Not(U))):
+                probs_fn.append("the update function of some variable is not restricted to the percolated space")
+    if not seen_const:
+        probs_in.append("free inputs fixed by the space are not turned into constants")
+    if not seen_fn:
+        probs_fn.append("update functions are not rewritten")
+    ck.ob("E", fm, sets[0], not probs_in, "; ".join(sorted(set(probs_in))) if probs_in else "free input -> constant iff fixed by the space",
+          key="free inputs")
     rc = [n for n in own_walk(f.node) if isinstance(n, ast.Call) and callee_name(n) == "inline_constants"]
     if rc:
         pc = fm.pc(fm.cfgn(rc[0]))
         if not logic.equivalent(pc, logic.B("T:remove_constants")):
-            probs.append("constants are removed although not requested (or kept although requested)")
-    lp = [n for n in own_walk(f.node) if isinstance(n, ast.For) and text(n.iter) == "bn.variables()"]
-    if not lp or any(isinstance(x, (ast.Continue, ast.Break)) for x in ast.walk(lp[0])):
-        probs.append("not every variable is processed")
-    ck.ob("E", fm, others[0] if others else f.node, not probs, "; ".join(probs) if probs else
+            probs_fn.append("constants are removed although not requested (or kept although requested)")
+    ck.ob("E", fm, sets[-1], not probs_fn, "; ".join(sorted(set(probs_fn))) if probs_fn else
           "every function restricted to the percolated space; constants removed on request only", key="functions")
